@@ -195,6 +195,20 @@ class C12(Check):
         files.update(mfiles)
         return files
 
+    def search(self, ctx):
+        """look for a concrete failing input: the cheap streams (memo tables, fixed histories) first at thorough size,
+        the whole thorough run only if they find nothing"""
+        ctx.tier_counts = 'thorough'
+        ctx.search_mode = True
+        self.pool = concurrent.futures.ThreadPoolExecutor(max_workers=min(12, (os.cpu_count() or 4)))
+        try:
+            for phase in (self.corr_memo, self.corr_lazy, self.oracle_fixed):
+                ctx.phase(phase, ctx)
+        finally:
+            self.pool.shutdown(wait=False)
+        if not ctx.violations and not os.environ.get('C12_SHALLOW_SEARCH'):     # (set while trying out mutations)
+            self.run(ctx)
+
     def run(self, ctx):
         try:
             ctx.notes['repo_head'] = subprocess.run(['git', '-C', ctx.repo, 'rev-parse', '--short', 'HEAD'],
@@ -313,6 +327,7 @@ class C12(Check):
                                  'entries=%d %s' % (res['import_entries'], t0[:200]), ' '.join(w)[:260])
                     break
         seen_set = False
+        differed = False
         kinds = set()
         for i, (op, st) in enumerate(zip(ops, res['steps'])):
             got = MM.impl_obs(st)
@@ -327,16 +342,18 @@ class C12(Check):
                 if want.startswith('err diverges'):
                     ctx.count('memo:model-nofuel')
                     break
-                if want != got:
+                if want != got and not differed:
+                    differed = True           # reported once; the oracle below still looks at every step
                     ctx.disagree('Tokenizer.__init__ / settings.set (memo) step %d' % i, {'memo_ops': ops[:i + 1]},
                                  got[:600], want[:600])
-                    break
             # oracle, independent of the model: the look-up returns what the computation gives past the cache
             if op['op'] == 'new':
                 f = st['fresh']
                 same = f['out'] == st['out'] and (st['out'] != 'ok' or (
                     f['tables'] == st['tables'] and f['comment'] == st['comment'] and f['uri'] == st['uri']))
                 if not same:
+                    ops = self.shrink_memo(ops[:i + 1])
+                    i = len(ops) - 1
                     ctx.violate('T12.4 a Tokenizer gets the tables that the computation gives for its arguments under the '
                                 'module-level MACROS / PRODUCTIONS as they are now (look-up = recomputation)',
                                 {'memo_ops': ops[:i + 1]},
@@ -359,6 +376,31 @@ class C12(Check):
                  sample={'memo_ops': ops[:6]})
         for k in kinds:
             ctx.count('memo-step:' + k)
+
+    def memo_fails(self, ops):
+        try:
+            st = run_worker({'mode': 'memo', 'ops': ops}, timeout=120)['steps'][-1]
+        except Exception:       # noqa: B902
+            return False
+        f = st.get('fresh')
+        return bool(f) and not (f['out'] == st['out'] and (st['out'] != 'ok' or (
+            f['tables'] == st['tables'] and f['comment'] == st['comment'] and f['uri'] == st['uri'])))
+
+    def shrink_memo(self, ops, budget=16):
+        """delete steps (keeping the last) while the look-up of the last step still differs from its recomputation"""
+        if getattr(self, '_memo_shrunk', 0) >= 3:
+            return ops
+        self._memo_shrunk = getattr(self, '_memo_shrunk', 0) + 1
+        cur = list(ops)
+        i = 0
+        while i < len(cur) - 1 and budget > 0:
+            cand = cur[:i] + cur[i + 1:]
+            budget -= 1
+            if self.memo_fails(cand):
+                cur = cand
+            else:
+                i += 1
+        return cur
 
     def corr_lazy(self, ctx):
         import cssutils
